@@ -54,6 +54,55 @@ def fairness_families(n):
         yield [P, Q]
 
 
+def _f1_per_family(prog, f, K, nmax):
+    from .c13 import pc_holds
+    nm = 0
+    counter = None
+    mism = []
+    for n in range(1, nmax + 1):
+        for fam in fairness_families(n):
+            hooks = _FairHooks(prog)
+            I = Interp(prog, hooks, rule='R-F-1')
+            path = I.new_path()
+            Fv = I._mk_coll('list', [
+                I._mk_coll('set', [Const(x) for x in sorted(P)], path, None)
+                for P in fam], path, None)
+            try:
+                res = I.call_function(FRef(f), [K, Fv], [], path, f.node)
+            except Inconclusive as e:
+                raise NotEvaluable(str(e))
+            rets = []
+            for (p, v) in res:
+                if isinstance(v, Raise):
+                    if not v.implicit:
+                        rets.append((p, v))
+                else:
+                    rets.append((p, I.snapshot(v, p)))
+            if hooks.param_mutations:
+                raise NotEvaluable('the structure is modified')
+            for g in all_graphs(n, total=True):
+                nm += 1
+                env = {K: g}
+                want = spec_fair_states(g, fam)
+                hit = [o for (p, o) in rets if pc_holds(p, env, I)]
+                if len(hit) != 1:
+                    raise NotEvaluable('%d returning paths hold' % len(hit))
+                if isinstance(hit[0], Raise):
+                    lo = hi = 'raises %r' % (hit[0].exc,)
+                else:
+                    try:
+                        lo, hi = evaluate_set(hit[0], env)
+                    except GraphError as e:
+                        lo = hi = 'raises ' + str(e)
+                if lo != want or hi != want:
+                    got = lo if lo != want else hi
+                    got = sorted(got) if not isinstance(got, str) else got
+                    if counter is None:
+                        counter = (g, fam, got, want)
+                    mism.append((repr(g), [sorted(P) for P in fam], got))
+    return nm, counter, mism
+
+
 def rule_f1(prog, tier):
     r = RuleResult('R-F-1', 'get_fair_states: extracted summary == states '
                    'starting a fair path, on every small structure')
@@ -125,8 +174,18 @@ def rule_f1(prog, tier):
                             mism.append((repr(g), [sorted(P) for P in fam],
                                          got))
     except NotEvaluable as e:
-        raise Inconclusive('R-F-1', 'summary of get_fair_states not '
-                           'evaluable: %s' % e, f.where())
+        # the summary over a symbolic family F is not evaluable (a loop over
+        # F that carries state from one constraint to the next, say): the
+        # function is summarised once per concrete family instead -- the
+        # loop over F is then unrolled -- and each summary is evaluated on
+        # the structures
+        try:
+            nm, counter, mism = _f1_per_family(prog, f, K, nmax)
+        except NotEvaluable as e2:
+            raise Inconclusive('R-F-1', 'summary of get_fair_states not '
+                               'evaluable: %s (per family: %s)' % (e, e2),
+                               f.where())
+        term = 'one summary per concrete family F (%s)' % e
     import hashlib
     fp = hashlib.sha1(repr(sorted(mism, key=repr)).encode()).hexdigest()[:10]
     r.inst(function=f.short(), summary=repr(term)[:500], models=nm)
